@@ -6,7 +6,7 @@ write side, C15 LinesCodec). -/
 namespace Driver.Codec
 open Driver ActixNet
 
-inductive CodecSel where | lines | bytes | len
+inductive CodecSel where | lines | bytes | len | lenx
 deriving DecidableEq, Repr
 
 structure State where
@@ -20,6 +20,7 @@ def codecOf : CodecSel → Framed.Codec Framed.Bytes
   | .lines => Framed.linesCodec
   | .bytes => Framed.bytesCodec
   | .len => Framed.lenCodec
+  | .lenx => Framed.lenxCodec
 
 /-- largest chunk a scripted read may carry: never more than the room `Framed` guarantees -/
 def maxChunk : Nat := 1024
@@ -61,6 +62,7 @@ def encOf : CodecSel → Framed.Enc Framed.Bytes
   | .lines => Framed.linesEnc
   | .bytes => Framed.bytesEnc
   | .len => Framed.lenEnc
+  | .lenx => Framed.lenEnc
 
 def wresStr : Framed.WRes → String
   | .ok => "ok"
@@ -110,7 +112,7 @@ def rdCounters (rs : Framed.RState) : String :=
 
 def parseSel (w : String) : Option CodecSel :=
   if w == "lines" then some .lines else if w == "bytes" then some .bytes
-  else if w == "len" then some .len else none
+  else if w == "len" then some .len else if w == "lenx" then some .lenx else none
 
 /-! ## C15: LinesCodec on a contiguous buffer -/
 
@@ -129,11 +131,26 @@ def linesRun (s : List Nat) : String :=
 
 def parseAll (ws : List String) : Option (List (List Nat)) := ws.mapM parseHex
 
+/-- ONE codec instance, the buffer growing piece by piece: `decode` until `None` after every piece
+(not after the last one when `direct`), then `decode_eof` until `None`; results per piece -/
+def chunksRun (pieces : List (List Nat)) (direct : Bool) : String :=
+  let n := pieces.length
+  let (outs, buf, _) := pieces.foldl (fun (acc : List String × List Nat × Nat) p =>
+    let (outs, buf, i) := acc
+    let buf := buf ++ p
+    if direct && i + 1 == n then (outs ++ ["-"], buf, i + 1)
+    else
+      let (xs, rest) := Lines.decodeLoop (buf.length + 1) buf
+      (outs ++ [resList xs], rest, i + 1)) ([], [], 0)
+  let (ys, rest') := Lines.eofLoop (buf.length + 2) buf
+  s!"p={"|".intercalate outs} eof={resList ys} rest={toHex rest'}"
+
 def parseCase (ws : List String) : Option State :=
   ws.foldlM (fun st w =>
     if w == "codec=lines" then some { st with sel := .lines }
     else if w == "codec=bytes" then some { st with sel := .bytes }
     else if w == "codec=len" then some { st with sel := .len }
+    else if w == "codec=lenx" then some { st with sel := .lenx }
     else if w.startsWith "codec=" then none
     -- how the `Framed` is made: `Framed::new` (buffers with capacity HW), from `FramedParts::new`
     -- (no capacity), from `FramedParts::with_read_buf` (bytes handed over, flags empty)
@@ -210,6 +227,12 @@ def step (st : State) (line : String) : State × String :=
     | none => (st, "bad-op")
   | ["dec", h] => match parseHex h with
     | some bs => (st, linesRun bs)
+    | none => (st, "bad-op")
+  | "chunks" :: hs => match parseAll hs with
+    | some ps => if ps.isEmpty then (st, "bad-op") else (st, chunksRun ps false)
+    | none => (st, "bad-op")
+  | "chunkse" :: hs => match parseAll hs with
+    | some ps => if ps.isEmpty then (st, "bad-op") else (st, chunksRun ps true)
     | none => (st, "bad-op")
   | "enc" :: hs => match parseAll hs with
     | some xs =>
